@@ -135,8 +135,10 @@ def run(rep, tier, rng):
     pops = [("count",), ("it", -1)]
     for t1, t2 in ppairs:
         a, b, x = shapes.gen_ctor(rng, t1, "small", True, 1, 2), shapes.gen_ctor(rng, t1, "small", True, 2, 3), shapes.gen_ctor(rng, t2, "small", True, 1, 2)
-        for h in (["a", "x"], ["a", "x", "b"], ["a", "b", "x", "x", "a"]):
-            calls = [(0, a if ch == "a" else b if ch == "b" else x) for ch in h]
+        # "p": a shape written through the bare ShapeWriter before it is wrapped into the complete writer
+        # (`Writer::new` accepts a writer that already holds a type)
+        for h in (["a", "x"], ["a", "x", "b"], ["a", "b", "x", "x", "a"], ["p", "x", "a", "b"], ["p", "p", "a", "x", "b"]):
+            calls = [(3 if ch == "p" else 0, a if ch in "ap" else b if ch == "b" else x) for ch in h]
             pcases.append(C08.pair_case(calls, pops))
             pmeta.append((h, t1, t2))
     pimpl = stages.correspondence(rep, "pair", dev, pcases, "pair(rejected shape through the complete writer)", vm_sample=30)
@@ -146,17 +148,18 @@ def run(rep, tier, rng):
             msg = "panic in the complete writer/reader"
         else:
             res = C08.parse_pair(r, len(h), pops)
-            n_ok = sum(1 for ch in h if ch != "x")
+            n_ok = sum(1 for ch in h if ch in "ab")
+            n_pre = sum(1 for ch in h if ch == "p")
             for j, ch in enumerate(h):
                 want = ("err", 8, t1, t2) if ch == "x" else ("ok",)
                 if res["results"][j] != want:
                     msg = "call %d of %s returned %r, expected %r" % (j, "".join(h), res["results"][j], want)
-            if not msg and res["counts"] != (n_ok, n_ok, n_ok):
+            if not msg and res["counts"] != (n_pre + n_ok, n_pre + n_ok, n_ok):
                 msg = ("after %s: %d shp records, %d shx entries, %d dbf rows; %d pairs were accepted (the row of a rejected "
                        "shape must not be written)" % ("".join(h), res["counts"][0], res["counts"][1], res["counts"][2], n_ok))
             elif not msg and "ops" in res:
                 ids = [it[2] for it in res["ops"][1]["items"] if it[0] == "ok"]
-                want_ids = [j for j, ch in enumerate(h) if ch != "x"]
+                want_ids = [j for j, ch in enumerate(h) if ch in "ab"]
                 if ids != want_ids:
                     msg = "pairs read back carry row ids %r, expected %r" % (ids, want_ids)
             elif not msg:
